@@ -428,20 +428,49 @@ func genERC20(r *lib.Rand, tier string) History {
 		t.bal = map[int]*big.Int{op.A: new(big.Int).Set(t.supply)}
 		h.Steps = append(h.Steps, op)
 	}
-	// swap registry between the tokens (possibly chained / mutual)
+	// a quarter of the histories: token A whose SYMBOL is token B's MIN UNIT (symbols and min units are
+	// separate name spaces in the code), with another scale, so that a symbol-first lookup of B's coin
+	// denom finds A instead of B
+	var clashA, clashB *gtok
+	if r.Chance(1, 4) {
+		clashB = g.toks[r.Intn(len(g.toks))]
+		op := g.issue(r.Intn(g.n))
+		op.Sym = clashB.min
+		if op.Scale == clashB.scale {
+			op.Scale = (clashB.scale + pick(r, 1, 6, 12)) % 19
+		}
+		op.Initial = pick(r, "1000", "100000000000", "11", "5000")
+		op.Max = pick(r, "0", maxU64.String())
+		op.Mintable = 1
+		clashA = g.toks[len(g.toks)-1]
+		clashA.sym, clashA.scale, clashA.mintable = op.Sym, op.Scale, true
+		clashA.max = new(big.Int).Set(maxU64)
+		clashA.initial = bigOf(op.Initial)
+		clashA.supply = new(big.Int).Mul(bigOf(op.Initial), pow10(op.Scale))
+		clashA.bal = map[int]*big.Int{op.A: new(big.Int).Set(clashA.supply)}
+		h.Steps = append(h.Steps, op)
+	}
+	// swap registry between the tokens (possibly chained / mutual); one entry per source
 	for i, t := range g.toks {
 		if r.Chance(3, 4) {
 			to := g.toks[(i+1+r.Intn(len(g.toks)-1))%len(g.toks)]
 			target := to.min
-			if r.Chance(1, 6) {
-				target = to.sym // GetToken also resolves symbols; the coins are then minted under that string
+			if r.Chance(1, 8) {
+				target = to.sym // a symbol that is no min unit: refused by the min-unit lookup of the target
 			}
-			h.Registry = append(h.Registry, RegEntry{From: t.min, To: target, Ratio: randRatio(r).String()})
+			ratio := randRatio(r)
+			if clashB != nil && t != clashB && r.Chance(3, 4) {
+				target = clashB.min // the clashing denom as swap target
+				if r.Chance(1, 2) {
+					ratio = new(big.Int).Set(p18)
+				}
+			}
+			h.Registry = append(h.Registry, RegEntry{From: t.min, To: target, Ratio: ratio.String()})
 		}
 	}
-	// most tokens get their ERC20 contract right away
+	// most tokens get their ERC20 contract right away (both tokens of a clash always)
 	for _, t := range g.toks {
-		if r.Chance(4, 5) {
+		if r.Chance(4, 5) || t == clashA || t == clashB {
 			h.Steps = append(h.Steps, Op{K: "deploy", A: accGov, Nm: 1, Sym: t.sym, Min: t.min, Scale: t.scale})
 			t.deployed = true
 		}
@@ -449,6 +478,9 @@ func genERC20(r *lib.Rand, tier string) History {
 	mode := 0
 	for len(h.Steps) < n {
 		t := g.toks[r.Intn(len(g.toks))]
+		if clashB != nil && r.Chance(1, 2) {
+			t = pick(r, clashA, clashB, clashB)
+		}
 		if !t.deployed && r.Chance(3, 4) {
 			for _, t2 := range g.toks {
 				if t2.deployed {
